@@ -62,6 +62,16 @@ func selftest(args []string) int {
 			props = strings.Split(args[i+1], ",")
 		}
 	}
+	bad, _, _ := selftestProps(props, runs, true)
+	if bad > 0 {
+		return 2
+	}
+	return 0
+}
+
+// selftestProps runs the determinism comparison for the given properties and returns
+// (diverged, compared, load-noise) counts.
+func selftestProps(props []string, runs int, verbose bool) (int, int, int) {
 	bin, err := buildWorker("plain")
 	if err != nil {
 		fatal2("%v", err)
@@ -169,18 +179,22 @@ func selftest(args []string) int {
 			}
 		}
 		total += len(m[0]) * (len(cfgs) - 1)
-		fmt.Printf("selftest %-4s %4d runs x %d executions: %d divergences (raw-order differences at GOMAXPROCS>1: %d)\n", p, len(m[0]), len(cfgs), div, rawDiv)
+		if verbose || div > 0 {
+			fmt.Printf("selftest %-4s %4d runs x %d executions: %d divergences (raw-order differences at GOMAXPROCS>1: %d)\n", p, len(m[0]), len(cfgs), div, rawDiv)
+		}
 		bad += div
 	}
 	// iteration over maps or sync.Map in the simulator would be an unowned source of nondeterminism
 	out, _ := exec.Command("grep", "-rn", "--include=*.go", "-E", `\.Range\(|for .* range .*(map\[|Faults|Probes)`, filepath.Join(simDir, "runner"), filepath.Join(simDir, "world"), filepath.Join(simDir, "sut")).CombinedOutput()
-	if len(out) > 0 {
+	if len(out) > 0 && verbose {
 		fmt.Printf("selftest: map iterations in simulator sources (must not feed choices or the history):\n%s", out)
 	}
 	if bad > 0 {
 		fmt.Printf("selftest: %d of %d comparisons diverged (%d more replayed identically in isolation)\n", bad, total, loadNoise)
-		return 2
+		return bad, total, loadNoise
 	}
-	fmt.Printf("selftest: %d comparisons identical, %d differed under load but replay identically in isolation\n", total-loadNoise, loadNoise)
-	return 0
+	if verbose {
+		fmt.Printf("selftest: %d comparisons identical, %d differed under load but replay identically in isolation\n", total-loadNoise, loadNoise)
+	}
+	return 0, total, loadNoise
 }
